@@ -186,6 +186,7 @@ Definition ser_toml_root (t : ty) (v : sval) : result tomlval :=
   end.
 
 (* ---- toml::Value::try_from / toml::Table::try_from (crates/toml/src/value.rs) ----------------------
+   (after the repairs of C13-tryfrom-datetime-table and C13-tryinto-datetime-string)
    toml::Table = BTreeMap<String, Value> (feature preserve_order off): insert keeps the entries
    sorted by key (byte-wise String order) and replaces the value of an equal key. *)
 Fixpoint bytes_ltb (a b : bytes) : bool :=
@@ -231,6 +232,21 @@ Definition tv_key (r : result tomlval) : result bytes :=
   | Err e => Err e
   end.
 
+(* ValueSerializer::serialize_struct remembers `name == NAME` (toml_datetime's private struct); SerializeStruct::end
+   then yields the date-time itself: the entry FIELD must be a string that parses (repair of
+   C13-tryfrom-datetime-table; before, the struct was written as the table { FIELD = "text" }) *)
+Fixpoint tab_find (k : bytes) (es : list (bytes * tomlval)) : option tomlval :=
+  match es with
+  | [] => None
+  | (k', x) :: es' => if bytes_eqb k' k then Some x else tab_find k es'
+  end.
+Definition tv_dt_end (es : list (bytes * tomlval)) : result tomlval :=
+  match tab_find DT_FIELD es with
+  | Some (VStr s) => rmap VDatetime (dt_field_str s)
+  | Some _ => Err EDateInvalid
+  | None => Err EUnsupportedNone
+  end.
+
 Fixpoint tv_ser (t : ty) (v : sval) {struct t} : result tomlval :=
   match t, v with
   | TBool, SBool b => Ok (VBool b)
@@ -239,7 +255,7 @@ Fixpoint tv_ser (t : ty) (v : sval) {struct t} : result tomlval :=
   | TFloat F32, SF32 b => Ok (VFloat (canon_nan (widen32 b)))
   | TChar, SChar c => Ok (VStr (utf8_encode c))
   | TStr, SStr s => Ok (VStr s)
-  | TDatetime _, SDt d => Ok (VTab [(DT_FIELD, VStr (display_datetime d))])   (* serialize_struct = serialize_map: no tunnel *)
+  | TDatetime _, SDt d => ser_datetime d         (* serialize_struct: name == NAME => the date-time itself (tv_dt_end) *)
   | TUnit, SUnit => Err (EUnsupportedType (Some S_unit))
   | TUnitStruct n, SUnit => Err (EUnsupportedType (Some n))
   | TOpt _, SNone => Err EUnsupportedNone
@@ -252,8 +268,9 @@ Fixpoint tv_ser (t : ty) (v : sval) {struct t} : result tomlval :=
          (mapM (fun kv => rbind (tv_key (tv_ser kt (fst kv))) (fun k =>
                           rmap (optmap (fun x => (k, x))) (tv_map_value (tv_ser vt (snd kv))))) es)
   | TStruct n fs, SRec vs =>
-    rmap (fun ps => VTab (btree_of_pairs (somes_pairs ps)))
-         (zipM (fun ft v' => rmap (optmap (fun x => (fst ft, x))) (tv_map_value (tv_ser (snd ft) v'))) fs vs)
+    rbind (zipM (fun ft v' => rmap (optmap (fun x => (fst ft, x))) (tv_map_value (tv_ser (snd ft) v'))) fs vs)
+          (fun ps => if bytes_eqb n DT_NAME then tv_dt_end (btree_of_pairs (somes_pairs ps))
+                     else Ok (VTab (btree_of_pairs (somes_pairs ps))))
   | TNewtype _ t', SNewtype v' => tv_ser t' v'
   | TEnum _ vs, SVariant i p =>
     pick (fun nv =>
@@ -282,8 +299,10 @@ Fixpoint tv_ser_table (t : ty) (v : sval) {struct t} : result tomlval :=
   | TOpt t', SSome v' => tv_ser_table t' v'
   | TNewtype _ t', SNewtype v' => tv_ser_table t' v'
   | TMap _ _, SMap _ => tv_ser t v
-  | TStruct _ _, SRec _ => tv_ser t v
-  | TDatetime _, SDt _ => tv_ser t v
+  | TStruct _ fs, SRec vs =>                              (* TableSerializer::serialize_struct = serialize_map: any name *)
+    rmap (fun ps => VTab (btree_of_pairs (somes_pairs ps)))
+         (zipM (fun ft v' => rmap (optmap (fun x => (fst ft, x))) (tv_map_value (tv_ser (snd ft) v'))) fs vs)
+  | TDatetime _, SDt d => Ok (VTab [(DT_FIELD, VStr (display_datetime d))])   (* known class private-datetime-key *)
   | TTupleStruct n _, SSeq _ => Err (EUnsupportedType (Some n))
   | TEnum n vs, SVariant i p =>
     pick (fun nv =>
